@@ -286,6 +286,9 @@ class Exec:
         self.mi = mi
         self.cur_class = cls.name if cls is not None else None
         self.fn_imports = dict(mi.imports)
+        # parameters of the function under contract as bound at entry, ghost parameters included: abstract handlers read ghost
+        # state from HERE, not from the environment of whatever (inlined) callee happens to make the call
+        self.root_env = dict(st.env)
         outs = self.exec_block(fndef.body, st)
         res = []
         for s, k, p in outs:
@@ -701,6 +704,20 @@ class Exec:
             raise EngineError('loop %d at line %d has non-concrete bounds in a bounded instance (%s..%s)'
                               % (ordinal, node.lineno, lo, hi))
         inv = self.unit.invariants.get(ordinal)
+        seen_inv = self.__dict__.setdefault('_inv_loops', [])
+        if id(node) not in seen_inv:
+            seen_inv.append(id(node))
+        if inv is None and self.unit.invariants:
+            # no invariant under this loop's ordinal: an edit inserted or removed a loop that is unrolled (a loop over a constant
+            # tuple, say) and shifted the numbering.  Fall back to the POSITION of this loop among the loops that need an
+            # invariant, in order of first encounter (on the pinned text the direct look-up never fails, so this changes nothing there)
+            keys = sorted(self.unit.invariants)
+            pos = seen_inv.index(id(node))
+            if pos < len(keys):
+                inv = self.unit.invariants[keys[pos]]
+                note = 'loop invariants matched by position (loop ordinals shifted by an edit)'
+                if note not in self.notes:
+                    self.notes.append(note)
         if inv is None:
             raise Unsupported('loop %d at line %d needs an invariant' % (ordinal, node.lineno))
         lo_t, hi_t = to_int(lo), to_int(hi)
